@@ -53,11 +53,13 @@ SpawnOps == {"spawn", "spawnfn", "spawnchild"}
 
 NodeNames(d) == {d[j].n : j \in 1..Len(d)}
 Nd(d, n) == d[CHOOSE j \in 1..Len(d) : d[j].n = n]
+Known(d, x) == x \in NodeNames(d) \/ x \in {"dw", "r"}
 NodeOK(d, j) ==
   /\ \A c \in SeqSet(d[j].ch) : (c \in NodeNames(d) /\ Nd(d, c).par = d[j].n)
-  /\ \A x \in SeqSet(d[j].wers) : (x \in NodeNames(d) => d[j].n \in SeqSet(Nd(d, x).wees))
-  /\ \A y \in SeqSet(d[j].wees) : (y \in NodeNames(d) => d[j].n \in SeqSet(Nd(d, y).wers))
+  /\ \A x \in SeqSet(d[j].wers) : (Known(d, x) /\ (x \in NodeNames(d) => d[j].n \in SeqSet(Nd(d, x).wees)))
+  /\ \A y \in SeqSet(d[j].wees) : (Known(d, y) /\ (y \in NodeNames(d) => d[j].n \in SeqSet(Nd(d, y).wers)))
   /\ ((d[j].par \in NodeNames(d) /\ d[j].par # "r") => d[j].n \in SeqSet(Nd(d, d[j].par).ch))
+  /\ (d[j].n # "u" => d[j].par \in NodeNames(d))
 
 \* ---------------------------------------------------------------- the checks, per event
 Checks(e) ==
@@ -92,6 +94,7 @@ Checks(e) ==
          IN
          /\ Check(e.c = base + Cardinality(live), "C11", "NumActors differs from the number of running user actors at quiescence")
          /\ Check(\A j \in 1..Len(d) : d[j].n = "u" \/ Alive(<<d[j].n, d[j].i>>), "C09", "a stopped actor is still registered at quiescence")
+         /\ Check(\A j \in 1..Len(e.res) : Alive(<<e.res[j].n, e.res[j].i>>), "C09", "a stopped actor is still resolvable by name at quiescence")
          /\ Check(\A key \in live : RegAs(d, key), "C09", "a running actor is missing from the tree at quiescence")
          /\ Check(\A key \in live : par[key[1]] = "u" \/ (\E p \in AliveOf(par[key[1]]) : RegAs(d, p)), "C09", "a running actor's parent is gone at quiescence")
          /\ Check(\A j \in 1..Len(d) : NodeOK(d, j),
